@@ -3,6 +3,7 @@ import collections
 
 from mirlib import AnchorMissing, decision_paths, describe_call, describe_operand, describe_rvalue, dom_guards, guards, _suffix_match
 from rules.common import where
+from mirlib import switch_desc as switch_desc_
 
 META = {
     "explanation": (
@@ -258,6 +259,55 @@ def run(ctx):
                 r.ok("compare/%s/unsigned-narrowing" % tag, loc, "narrowing to an unsigned type fails only for negative values: a single fallback (%s) suffices" % [d for d, _ in consts])
         if n < 2:
             raise AnchorMissing("expected narrowing conversions in Value::compare, found %d" % n)
+
+    with ctx.rule("C19.R4c", "T7", "no comparison is made on a clamped operand: a narrowing that can fail is never replaced by a substitute value that is then compared", floor=4) as r:
+        # `i64::try_from(u).unwrap_or(i64::MAX)` followed by `lhs.cmp(&rhs)` makes every value beyond the range equal to the bound: compare says Equal
+        # for values eq (and hash) distinguish, and the order is no longer transitive. The helpers Value::compare calls are part of the table.
+        prog = ctx.program(M)
+        cone = [cmp_b]
+        seen = {cmp_b.defpath}
+        for b in list(cone):
+            for c in b.calls:
+                for cb in prog.callee_bodies(c):
+                    if cb.defpath not in seen and cb.crate.name == M and "::tests" not in cb.defpath:
+                        seen.add(cb.defpath)
+                        cone.append(ctx.saw(cb))
+            for cb in m.closures_of(b.defpath):
+                if cb.defpath not in seen:
+                    seen.add(cb.defpath)
+                    cone.append(cb)
+        NARROW = ("try_from", "try_into", "to_i8", "to_i16", "to_i32", "to_i64", "to_i128", "to_isize", "to_u8", "to_u16", "to_u32", "to_u64", "to_u128", "to_usize")
+        SUBST = ("unwrap_or", "unwrap_or_else", "unwrap_or_default", "map_or", "map_or_else")
+        helpers = [b for b in cone if b is not cmp_b and "{closure" not in b.defpath]
+        r.check(len(helpers) >= 4, "compare/helpers-in-scope", loc, "%d helper functions of Value::compare analysed (%s)" % (len(helpers), ", ".join(sorted(b.defpath.split("::")[-1] for b in helpers))[:120]),
+                "the comparison helpers of Value::compare were not found (%d)" % len(helpers))
+        for b in cone:
+            for c in b.calls:
+                if c.via_name not in ("cmp", "partial_cmp") and c.name not in ("cmp", "partial_cmp"):
+                    continue
+                bad = []
+                for a in c.args:
+                    for s_ in b.sources(a, stop_at_calls=False):
+                        if s_[0] == "call" and s_[1].name in SUBST:
+                            inner = b.sources(s_[1].args[0], stop_at_calls=False)
+                            if any(x[0] == "call" and (x[1].name in NARROW or x[1].via_name in NARROW) for x in inner):
+                                bad.append(s_[1])
+                key = "%s/cmp@%s/operands-not-clamped" % (b.defpath.split("::")[-1] if b is not cmp_b else "compare", c.line)
+                key = "%s/cmp#%d/operands-not-clamped" % ((b.defpath.split("swimos_model::")[-1]) if b is not cmp_b else "compare", sum(1 for y in b.calls if (y.name in ("cmp", "partial_cmp")) and y.line < c.line))
+                r.check(not bad, key, c.loc(), "the operands of this comparison are the values themselves (no substitute for a failed narrowing)",
+                        "an operand of this comparison is `%s(..)` of a narrowing conversion: every value outside the target range is compared as if it were the substitute, so distinct values compare Equal (e.g. Int64Value(i64::MAX) and every UInt64Value above it) and the order is not transitive" % (bad[0].name if bad else "?"))
+        # the sign test of a mixed signed/unsigned comparison: the helper decides by the sign before it compares in the unsigned domain
+        for b in helpers:
+            nm = b.defpath.split("::")[-1]
+            mm = __import__("re").match(r"^cmp_([iu])(\d+)_([iu])(\d+)$", nm)
+            if not mm or mm.group(1) == mm.group(3):
+                continue
+            sign_tests = [sb for sb in range(b.n) if not b.is_cleanup(sb) and b.term(sb)["k"] == "switch" and "Lt(" in switch_desc_(b, sb) and ", 0)" in switch_desc_(b, sb)]
+            wide = "i%d" % (2 * max(int(mm.group(2)), int(mm.group(4))))
+            widened = [1 for i, j, p_, rv, line in b.assigns() if rv[0] == "cast" and str(rv[1]).startswith("IntToInt") and b.locals[p_[0]] == wide and not p_[1]]
+            r.check(bool(sign_tests) or len(widened) >= 2, "%s/sign-decided-first-or-both-widened" % nm, where(b),
+                    "a negative signed operand is decided by its sign alone before the unsigned comparison" if sign_tests else "both operands are widened to %s before they are compared" % wide,
+                    "%s neither tests the sign of its signed operand nor widens both operands to %s: the mixed comparison goes through a conversion that cannot represent every value" % (nm, wide))
 
     with ctx.rule("C19.R5", "T10", "Item and Attr: ordering consistent with the derived equality", floor=5) as r:
         it = ctx.saw(m.fn(name="compare", self_adt="item::Item"))
